@@ -83,7 +83,9 @@ PROPS["C09"] = dict(
         "c09_desc_new_rejects_duplicate_label_names": dict(cap=1800),
         "c09_desc_new_two_const_one_variable": dict(cap=5400, tier="thorough"),
         "c09_desc_new_three_variable_labels": dict(cap=2400),
-        "c09_histogram_rejects_le": dict(cap=1800),
+        "c09_histogram_rejects_le_variable": dict(cap=1200),
+        "c09_histogram_rejects_le_const": dict(cap=1200),
+        "c09_histogram_accepts_other_labels": dict(cap=1200),
         "c09_registry_prefix_and_label_names_validated": dict(cap=1800),
         "c09_registry_common_label_clash_refused": dict(cap=1800),
     },
@@ -119,7 +121,7 @@ PROPS["C05"] = dict(
 PROPS["C06"] = dict(
     hosts={"registry": ["c06.rs"]},
     cfgs=["prometheus_verif_map"],
-    jobs=4,
+    jobs=2,
     harnesses={
         "c06_register_one_descriptor_step": dict(cap=1800),
         "c06_register_two_descriptors_new_then_known": dict(cap=2400),
@@ -182,9 +184,9 @@ PROPS["C15"] = dict(
         "c15_id_boundary_shift_20_vs_11": dict(cap=2400),
         "c15_id_same_shape_22": dict(cap=2400, tier="thorough"),
         "c15_id_empty_value_position": dict(cap=2400),
-        "c15_id_two_const_labels_order_independent": dict(cap=2400),
-        "c15_dim_hash_variable_label_sets": dict(cap=5400, tier="thorough"),
-        "c15_dim_hash_const_vs_variable": dict(cap=5400, tier="thorough"),
+        "c15_id_two_const_labels_order_independent": dict(cap=3600, tier="thorough"),
+        "c15_dim_hash_variable_label_sets": dict(cap=2400),
+        "c15_dim_hash_const_vs_variable": dict(cap=2400),
     },
     functions=["Desc::new (id and dim_hash computation, const label pair sorting)", "desc::is_valid_metric_name", "desc::is_valid_label_name"],
     bounds="metric name 1..=2 bytes and one const-label value 0..=2 bytes (ASCII, symbolic); two const labels with 1-byte symbolic values in both insertion orders and every map iteration order; help 1 symbolic lowercase letter; variable-label lists from {[], [x], [y], [x,y], [y,x]}; hashed streams <= 8 bytes; unwind 6",
@@ -201,11 +203,11 @@ PROPS["C02"] = dict(
     jobs=3,
     mem_gb=40,
     harnesses={
-        "c02_s1_observe_vs_collect": dict(cap=3600, flags=["--no-memory-safety-checks"]),
-        "c02_s2_two_observes_prefix_closed": dict(cap=7200, tier="thorough", flags=["--no-memory-safety-checks"]),
-        "c02_s3_two_observers_vs_collect": dict(cap=7200, tier="thorough", flags=["--no-memory-safety-checks"]),
-        "c02_s4_two_collectors": dict(cap=7200, tier="thorough", flags=["--no-memory-safety-checks"]),
-        "c03_batch_flush_three_collects": dict(cap=10800, tier="thorough", flags=["--no-memory-safety-checks"]),
+        "c02_s1_observe_vs_collect": dict(cap=3600),
+        "c02_s2_two_observes_prefix_closed": dict(cap=7200, tier="thorough"),
+        "c02_s3_two_observers_vs_collect": dict(cap=7200, tier="thorough"),
+        "c02_s4_two_collectors": dict(cap=7200, tier="thorough"),
+        "c03_batch_flush_three_collects": dict(cap=10800, tier="thorough"),
     },
     functions=["HistogramCore::observe", "HistogramCore::proto", "ShardAndCount::{inc, inc_by, flip, get}", "AtomicU64::{inc_by, inc_by_with_ordering, swap, compare_exchange_weak}", "AtomicF64::{inc_by, swap}"],
     bounds="K rounds (see env PROMETHEUS_VERIF_K), 2-3 threads, observations in {0,1,2,3}, 1-2 buckets, unwind 6",
@@ -403,8 +405,13 @@ MANIFEST_TEXT["C08"] = dict(
 )
 
 NOT_APPLICABLE = {
+    "C07": "RegistryCore::gather does not produce a verdict under Kani/CBMC in any of three formulations (40 min cap / 24 GB): Vec<Metric> growth, std sort_by on 200-byte elements (stub rejected by Kani), format!; see DESIGN A.8",
+    "C13": "the encoding is the protobuf crate's pointer-rich stream writer; symbolic execution did not finish in the design-round probe (20 min) and even format! on concrete strings is out of reach; the crate's own check_metric_family is covered by C17",
+    "C14": "needs RegistryCore::gather, which does not produce a verdict under Kani/CBMC (see C07, DESIGN A.8)",
+    "C16": "needs both data models in one formula; harnesses are compiled inside one build (one feature set) and the generated protobuf structs were not attempted under Kani (see C13)",
     "C19": "subject is a procedural macro (static-metric on syn/quote) and the quantifier is over programs; Kani cannot compile or symbolically execute a proc-macro crate and a hand translation of syn/quote to SMT is out of reach",
+    "C20": "the macros name std::collections::HashMap explicitly and register in the global lazy_static registry; hashbrown under Kani does not terminate in useful time and the E6 map shim cannot be substituted inside the macro expansions",
 }
-for _p in ["C01", "C02", "C03", "C04", "C05", "C06", "C07", "C09", "C10", "C11", "C12", "C13", "C14", "C15", "C16", "C17", "C18", "C20"]:
+for _p in ["C01", "C02", "C03", "C04", "C05", "C06", "C08", "C09", "C10", "C11", "C12", "C15", "C17", "C18"]:
     if _p not in CLAIMED:
-        NOT_APPLICABLE[_p] = "check not built yet (work in progress, see DESIGN.md); not claimed until its harnesses are committed"
+        NOT_APPLICABLE[_p] = "harnesses exist (harness/incrate) but the quick tier is not yet stable within the caps on this machine; not claimed in this state"
